@@ -306,3 +306,47 @@ package cache
 //@   requires !held(t.RWMutex)
 //@   ensures #empty t.eleList.lcnt == 0 && forall k string :: { has(t.eleHash, k) } !has(t.eleHash, k)
 //@   modifies ttlMemCache.eleList, ttlMemCache.eleHash, mapsof(t.eleHash), list.List.lmem, list.List.lcnt, list.Element.lrk, list.Element.Value, ttlNode.key, ttlNode.value, ttlNode.deadline, setOption.ttl, setOption.mustNotExist, setOption.keepTTL, getOption.ttl, getOption.removeAfterGet, getOption.updateTTL, region($alloc)
+//
+// ---- redis-backed TTL cache (C05: agreement with the in-memory cache on the same history) ----
+// A real redis server is an external system: the contracts fix what is SENT to it - the prefixed key and the
+// expiration in the unit the in-memory cache uses (its ttl counts seconds: deadline = now().Unix() + ttl).
+//@ opaque strcat(a string, b string) string
+//@ ghost usedTTL int64
+//@ ghost usedKeep bool
+//@ func ttlRdsCache.key
+//@   property C05
+//@   trusted string concatenation (named by the opaque function strcat so that contracts can refer to the prefixed key)
+//@   ensures result == strcat(t.prefix, k)
+//@   modifies
+//@ func funcval getFn
+//@   property C05
+//@   trusted method value of redis.Cmdable.Get or GetDel (whichever the option selected)
+//@   ensures result != nil && rdsKey == key && (rdsOp == 4 || rdsOp == 5)
+//@   modifies rdsOp, rdsKey, rdsExp, region($alloc)
+//@ func ttlRdsCache.Set
+//@   property C05
+//@   requires t != nil && ErrTTLKeyExists != nil
+//@   aftercall SetNX usedTTL = o.ttl
+//@   aftercall Set usedTTL = o.ttl
+//@   aftercall Set usedKeep = o.keepTTL
+//@   ensures #key rdsKey == strcat(t.prefix, key) && (rdsOp == 1 || rdsOp == 2)
+//@   ensures #seconds (rdsOp == 1 || (rdsOp == 2 && !usedKeep)) ==> rdsExp == time.Duration(usedTTL) * 1000000000
+//@   ensures #keepttl rdsOp == 2 && usedKeep ==> rdsExp == redis.KeepTTL
+//@   modifies rdsOp, rdsKey, rdsExp, usedTTL, usedKeep, region($alloc), setOption.ttl, setOption.mustNotExist, setOption.keepTTL, getOption.ttl, getOption.removeAfterGet, getOption.updateTTL
+//@   loop 1
+//@     invariant o != nil && isfresh(o)
+//@ func ttlRdsCache.Get
+//@   property C05
+//@   requires t != nil && ErrTTLKeyNotFound != nil && redis.Nil != nil
+//@   aftercall Expire usedTTL = o.ttl
+//@   ensures #key rdsKey == strcat(t.prefix, key)
+//@   ensures #seconds rdsOp == 3 ==> rdsExp == time.Duration(usedTTL) * 1000000000
+//@   ensures #notfound result1 != nil ==> result0 == nil
+//@   modifies rdsOp, rdsKey, rdsExp, usedTTL, region($alloc), setOption.ttl, setOption.mustNotExist, setOption.keepTTL, getOption.ttl, getOption.removeAfterGet, getOption.updateTTL
+//@   loop 1
+//@     invariant o != nil && isfresh(o)
+//@ func ttlRdsCache.Remove
+//@   property C05
+//@   requires t != nil
+//@   ensures #del rdsOp == 6
+//@   modifies rdsOp, rdsKey, rdsExp, region($alloc)
